@@ -8,6 +8,7 @@ in seeded/<name>/patch.diff with meta.json {"property": id}."""
 import glob, json, os, shutil, subprocess, sys, tempfile, time
 from concurrent.futures import ThreadPoolExecutor
 V = os.path.dirname(os.path.dirname(os.path.abspath(__file__)))
+REPLAY = False
 
 def props_for(patch):
     b = os.path.basename(patch)
@@ -36,7 +37,21 @@ def run_one(patch, tests, tier, only=None):
             t0 = time.time()
             r = subprocess.run(['/venv/bin/python', os.path.join(V, 'check.py'), pid, tier], env=env, capture_output=True, text=True)
             clauses = sorted(set(l.split('clause=')[1].split()[0] for l in r.stdout.splitlines() if 'clause=' in l))
-            res.append((pid, r.returncode, round(time.time() - t0, 1), clauses, r.stderr[-500:] if r.returncode == 2 else ''))
+            err = r.stderr[-500:] if r.returncode == 2 else ''
+            if REPLAY and r.returncode == 1:
+                # every replay file must reproduce on the mutant and pass on /repo
+                rps = [l.split('replay=')[1].strip() for l in r.stdout.splitlines() if l.startswith('VIOLATION')][:4]
+                rep = cln = 0
+                for rp in rps:
+                    a = subprocess.run(['/venv/bin/python', os.path.join(V, 'check.py'), pid, '--replay', rp], env=env, capture_output=True, text=True)
+                    env2 = dict(env); env2.pop('VERIF_REPO'); env2['VERIF_REPLAY_DIR'] = os.path.join(d, 'rp2')
+                    b = subprocess.run(['/venv/bin/python', os.path.join(V, 'check.py'), pid, '--replay', rp], env=env2, capture_output=True, text=True)
+                    rep += a.returncode == 1
+                    cln += b.returncode == 0
+                    if a.returncode != 1 or b.returncode != 0:
+                        err += ' REPLAY-MISMATCH %s mutant_rc=%d clean_rc=%d' % (os.path.basename(rp), a.returncode, b.returncode)
+                clauses.append('[replay %d/%d reproduce, %d/%d clean-pass]' % (rep, len(rps), cln, len(rps)))
+            res.append((pid, r.returncode, round(time.time() - t0, 1), clauses, err))
         tmsg = ''
         if tests:
             r = subprocess.run([os.path.join(V, 'selftest', 'repo_tests.sh'), d], capture_output=True, text=True)
@@ -50,6 +65,8 @@ def run_one(patch, tests, tier, only=None):
 def main():
     a = sys.argv[1:]
     tests = '--tests' in a
+    global REPLAY
+    REPLAY = '--replay' in a
     tier = 'quick'
     if '--tier' in a:
         tier = a[a.index('--tier') + 1]
